@@ -266,6 +266,9 @@ def main():
     for nm in names:
         for k in range(n):
             case = normalise_case(L.gen_case(rng, nm))
+            if k == 0:  # always: every decaying particle gets a marker builder by name
+                case["custom"].setdefault("5", [])
+                case["history"] = [{"k": "str", "name": pn, "b": 5} for pn in L.ctx(nm).parent_names()]
             try:
                 fails, st = check_case(case, rng)
             except Exception as e:  # noqa: BLE001
